@@ -120,7 +120,8 @@ def get_instant(value: HINT_INSTANT) -> Instant:
         now = SystemDateTime.now()
         new = now.replace_time(time, disambiguate='raise')
         if new < now:
-            new = new.add(hours=24)
+            # tomorrow at the same wall clock time (a day is not always 24 hours long)
+            new = new.add(days=1, disambiguate='raise')
         return new.instant()
 
     raise ValueError()
